@@ -2217,6 +2217,14 @@ pub(crate) fn atomic_rmw(
         return old_mirror;
     }
     let li = loc_index(rt, meta, hint, old_mirror, is_ptr);
+    // Unconditional read-modify-writes (swap) of a node's control word and debt slots are the
+    // owner's moves; everybody else only compare-exchanges them. Reported like owner-only stores.
+    let cls = rt.locs[li].class;
+    if matches!(cls, LocClass::Control | LocClass::FastSlot | LocClass::HelpSlot) {
+        if let Some(h) = rt.event_hook {
+            h(OWNER_ONLY_STORE, meta as *const _ as usize);
+        }
+    }
     let (t, ts) = rt.tick();
     let last = rt.locs[li].stores.len() - 1;
     let s = &mut rt.locs[li].stores[last];
